@@ -58,6 +58,11 @@ struct Helpers;
 fn h1(a: u64, b: u64, c: u64, d: u64, e: u64) -> u64 {
     isaeng::gather_helper(a, b, c, d, e)
 }
+fn h_nested(a: u64, _b: u64, _c: u64, _d: u64, _e: u64) -> u64 {
+    // the instruction budget of the outer run is a thread-local counter: keep it
+    crate::callseng::nested_run(1);
+    a.wrapping_add(1)
+}
 fn h2(a: u64, _b: u64, _c: u64, _d: u64, _e: u64) -> u64 {
     a.wrapping_add(1)
 }
@@ -129,8 +134,14 @@ fn c05_check(s: &mut Sink, bytes: &[u8], pos: usize, bufs: &Bufs) {
     // configuration 4: after loading, a set_program with an ill-formed program fails (the VM must go
     // on running the accepted program); configuration 5: the VM held another program before
     static ILL: [u8; 16] = [0xb7, 0, 0, 0, 0, 0, 0, 0, 0x06, 0, 0, 0, 0, 0, 0, 0];
-    let configs: [(VmKind, usize); 8] = [(VmKind::NoData, 0), (VmKind::Raw, 1), (VmKind::Mbuff, 2), (VmKind::Raw, 3), (VmKind::Fixed(0x18, 0x08), 1), (VmKind::Fixed(0x0, 0x8), 0), (VmKind::Raw, 4), (VmKind::NoData, 5)];
+    // configuration 6: helper 1 is a function that itself runs an eBPF program under the interpreter
+    // (a helper may re-enter the library); only for strings that contain a helper call
+    let has_call = prog.iter().any(|i| i.opc == 0x85 && i.src == 0);
+    let configs: [(VmKind, usize); 9] = [(VmKind::NoData, 0), (VmKind::Raw, 1), (VmKind::Mbuff, 2), (VmKind::Raw, 3), (VmKind::Fixed(0x18, 0x08), 1), (VmKind::Fixed(0x0, 0x8), 0), (VmKind::Raw, 4), (VmKind::NoData, 5), (VmKind::NoData, 6)];
     for (kind, hs) in configs {
+        if hs == 6 && !has_call {
+            continue;
+        }
         let r = catch(|| {
             let _reload = isaeng::ReloadGuard::new(if hs == 5 { 3 } else { 0 });
             let mut vm = AnyVm::new(kind, Some(bytes)).map_err(|e| format!("load: {e}"))?;
@@ -146,6 +157,9 @@ fn c05_check(s: &mut Sink, bytes: &[u8], pos: usize, bufs: &Bufs) {
             }
             if (1..=4).contains(&hs) {
                 vm.register_helper(1, h1)?;
+            }
+            if hs == 6 {
+                vm.register_helper(1, h_nested)?;
             }
             if (2..=3).contains(&hs) {
                 vm.register_helper(0x7fff_ffff, h2)?;
@@ -423,7 +437,7 @@ fn enumerate_special(s: &mut Sink, mode: Mode, g: &mut u64) {
         }
         let mut nn = 0;
         for imm in &dense {
-            for (dst, src, off) in [(1u8, 2u8, 0i16), (0, 0, 0)] {
+            for (dst, src, off) in [(1u8, 2u8, 0i16), (0, 0, 0), (0, 1, 0)] {
                 let f = I::new(opc, dst, src, off, *imm);
                 let prog: Vec<I> = vec![isa::mov64i(0, 0), isa::mov64i(1, 0), f, I::new(0, 0, 0, 0, 0), isa::EXIT];
                 let prog: Vec<I> = if opc == 0x18 { prog } else { vec![isa::mov64i(0, 0), isa::mov64i(1, 0), f, isa::EXIT] };
@@ -991,6 +1005,75 @@ fn c12_sizing(s: &mut Sink, g: &mut u64) {
             }
         }
         s.done("every sizing unit repeated to fill 1000000 instruction slots");
+    }
+    // a helper that lives below 2^31 (a trampoline in MAP_32BIT memory): a compiler that picks the
+    // form of the call from the distance between code buffer and helper sees another distance in
+    // its sizing pass than in its emitting pass
+    {
+        let idx = *g;
+        *g += 1;
+        if s.take(idx) {
+            let low: rbpf::Helper = unsafe {
+                let m = libc::mmap(std::ptr::null_mut(), 4096, libc::PROT_READ | libc::PROT_WRITE | libc::PROT_EXEC, libc::MAP_PRIVATE | libc::MAP_ANONYMOUS | libc::MAP_32BIT, -1, 0);
+                assert!(m != libc::MAP_FAILED && (m as usize) < (1usize << 31), "MAP_32BIT mapping");
+                let code = m as *mut u8;
+                // movabs rax, h1 ; jmp rax
+                let mut b = vec![0x48u8, 0xb8];
+                b.extend_from_slice(&(h1 as usize as u64).to_le_bytes());
+                b.extend_from_slice(&[0xff, 0xe0]);
+                std::ptr::copy_nonoverlapping(b.as_ptr(), code, b.len());
+                std::mem::transmute::<*mut u8, rbpf::Helper>(code)
+            };
+            let mut nn = 0;
+            for k in [1usize, 2, 50, 100, 250, 300, 350, 400, 450, 500, 550, 600, 800, 1000, 2000, 5000] {
+                let mut prog = vec![];
+                for _ in 0..k {
+                    // r1-r5 do not survive a helper call: set them before every call
+                    prog.extend([isa::mov64i(1, 1), isa::mov64i(2, 2), isa::mov64i(3, 3), isa::mov64i(4, 4), isa::mov64i(5, 5)]);
+                    prog.push(isa::call_helper(1));
+                }
+                prog.push(isa::EXIT);
+                let bytes = isa::enc(&prog);
+                for eng in [Eng::Jit, Eng::Cl] {
+                    for kind in [VmKind::NoData, VmKind::Fixed(0, 8)] {
+                        let b2 = bytes.clone();
+                        let end = in_child(60, move || {
+                            let r = catch(|| {
+                                let mut vm = AnyVm::new(kind, Some(&b2)).map_err(|e| format!("load: {e}"))?;
+                                vm.register_helper(1, low)?;
+                                vm.compile(eng)?;
+                                let mut pk = [0u8; 16];
+                                vm.exec(eng, if matches!(kind, VmKind::NoData) { vm::empty_raw() } else { (pk.as_mut_ptr(), 16) }, vm::empty_raw())
+                            });
+                            match r {
+                                Ok(Ok(v)) => format!("OK {v:#x}").into_bytes(),
+                                Ok(Err(e)) => format!("ERR {e}").into_bytes(),
+                                Err(m) => format!("PANIC {m}").into_bytes(),
+                            }
+                        });
+                        nn += 1;
+                        s.count("traces_validated_against_impl", 1);
+                        let want = h1(1, 2, 3, 4, 5);
+                        let rp = json!({"kind":"none"});
+                        match end {
+                            ChildEnd::Ok(b) if b.starts_with(b"OK") => {
+                                if String::from_utf8_lossy(&b) != format!("OK {want:#x}") {
+                                    s.violation(&format!("{}/low-address-helper/value-mismatch", eng.name()), format!("{k} calls of a helper at an address below 2^31: {} want {want:#x}", String::from_utf8_lossy(&b)), rp);
+                                }
+                            }
+                            ChildEnd::Ok(b) if b.starts_with(b"ERR load") => s.violation("verifier/low-address-helper/rejects-template", String::from_utf8_lossy(&b).to_string(), rp),
+                            ChildEnd::Ok(b) if b.starts_with(b"ERR") => s.outcome("compile-err (an error value: allowed by C12)", 1),
+                            ChildEnd::Ok(b) => s.violation(&format!("{}/low-address-helper/compile-{}", eng.name(), panic_class(&String::from_utf8_lossy(&b))), format!("{k} calls of a helper at an address below 2^31: {}", String::from_utf8_lossy(&b)), rp),
+                            ChildEnd::Signal(sig) => s.violation(&format!("{}/low-address-helper/crash:{}", eng.name(), signame(sig)), format!("{k} calls of a helper at an address below 2^31: died with {}", signame(sig)), rp),
+                            ChildEnd::Exit(c) => s.violation(&format!("{}/low-address-helper/child-exit:{c}", eng.name()), format!("{k} calls"), rp),
+                        }
+                    }
+                }
+            }
+            s.count("evaluations", nn);
+            s.count("states", nn);
+            s.done("1..5000 calls of a helper whose address is below 2^31");
+        }
     }
     // every machine-code jump distance (the layer-5 programs of C03), compile only, twice
     for a in 0..=32usize {
